@@ -67,9 +67,13 @@ func (o *UntypedRequestBinder) Bind(request *http.Request, routeParams RoutePara
 		if isMap {
 			tpe := binder.Type()
 			if tpe == nil {
-				if param.Schema.Type.Contains(typeArray) {
+				switch {
+				case param.Schema.Type.Contains(typeArray):
 					tpe = reflect.TypeOf([]interface{}{})
-				} else {
+				case param.Schema.Type.Contains(typeString):
+					// a text/plain, binary or JSON string body: no consumer can decode it into a map
+					tpe = reflect.TypeOf("")
+				default:
 					tpe = reflect.TypeOf(map[string]interface{}{})
 				}
 			}
